@@ -2,6 +2,7 @@
     acknowledgement the connection is rescheduled and the next consume takes all its requests. *)
 From Coq Require Import ZArith ZifyBool ZifyN ZifyNat.
 From Rumqtt Require Import Router.Model Router.RunDefs Router.WindowFrame Router.Window Router.WindowStep.
+From Rumqtt Require Router.DataLogStep.
 
 (* ------------------------------------------------------------------ C09 (c): unsolicited acks *)
 (** an acknowledgement the broker did not solicit: not the head of the inflight buffer
@@ -101,6 +102,46 @@ Proof.
   - exists rest. rewrite <- IH. cbn [handle_packets]. rewrite H1. reflexivity.
 Qed.
 
+(** a packet of the batch of connection [id] that stops the batch with the disconnect flag set
+    closes [id]: the rest of the batch is not processed, [handle_disconnection] runs on a state
+    [st3] that has the obufs / acks / links of the state [s1] right after that packet *)
+Lemma batch_break_closes st id inc b s fls p s1 fl1 st' :
+  slab_get (r_ibufs st) id = Some inc -> nthN (r_links st) (i_link inc) = Some b ->
+  processed id (i_client inc) (link_put st (i_link inc) (set_lk_in b [])) flags0 (lk_in b) s fls p ->
+  handle_packet s id (i_client inc) p fls = Ok (s1, fl1, true) -> f_disconnect fl1 = true ->
+  handle_device_payload st id = Ok st' ->
+  exists st3,
+    handle_packets (link_put st (i_link inc) (set_lk_in b [])) id (i_client inc) (lk_in b) flags0 = Ok (s1, fl1) /\
+    keep st3 = keep s1 /\ r_datalog st3 = r_datalog s1 /\
+    handle_disconnection st3 id (f_reason fl1) = Ok st' /\
+    slab_get (r_obufs st') id = None /\
+    forall id', id' <> id ->
+      slab_get (r_conns st') id' = slab_get (r_conns st3) id' /\
+      slab_get (r_obufs st') id' = slab_get (r_obufs st3) id' /\
+      slab_get (r_trackers st') id' = slab_get (r_trackers st3) id' /\
+      slab_get (r_acks st') id' = slab_get (r_acks st3) id' /\
+      slab_get (r_ibufs st') id' = slab_get (r_ibufs st3) id'.
+Proof.
+  intros G Hb P H1 D H.
+  destruct (processed_eq _ _ _ _ _ _ _ _ P) as (rest & EQ).
+  assert (HPs : handle_packets (link_put st (i_link inc) (set_lk_in b [])) id (i_client inc) (lk_in b) flags0 = Ok (s1, fl1)).
+  { rewrite EQ. cbn [handle_packets]. rewrite H1. reflexivity. }
+  rewrite (handle_device_payload_disc _ _ _ _ _ _ G Hb HPs D) in H.
+  apply bind_ok in H as (st2 & H2 & H). apply bind_ok in H as (st3 & H3 & H).
+  exists st3. split; [exact HPs |].
+  split.
+  { assert (K2 : keep st2 = keep s1) by (destruct (f_force_ack fl1); [now apply reschedule_keep in H2 | now inv_ok]).
+    assert (K3 : keep st3 = keep st2) by (destruct (f_new_data fl1); [now apply drain_notifications_keep in H3 | now inv_ok]).
+    congruence. }
+  split.
+  { assert (K2 : r_datalog st2 = r_datalog s1).
+    { destruct (f_force_ack fl1); [| now inv_ok]. eapply DataLogStep.reschedule_dl; eauto. }
+    assert (K3 : r_datalog st3 = r_datalog st2).
+    { destruct (f_new_data fl1); [| now inv_ok]. eapply DataLogStep.drain_notifications_dl; eauto. }
+    congruence. }
+  split; [exact H |]. now apply handle_disconnection_others in H.
+Qed.
+
 (** C09 (c), end to end: an unsolicited ack anywhere in the batch of connection [id] ends the
     batch there and closes [id]; whatever happened to the other connections' slab entries
     happened before the disconnection (i.e. by the regular processing of the packets before) *)
@@ -129,16 +170,8 @@ Proof.
   apply bind_ok in H0 as ([s1' fl1'] & H1 & H0). apply bind_ok in H1 as ([[s1 fl1] brk] & H1 & H2).
   destruct (handle_packet_unsolicited _ _ _ _ _ _ _ _ _ H1 Go U) as (-> & D & _).
   inv_ok. exists s1', fl1'.
-  assert (HPs : handle_packets (link_put st (i_link inc) (set_lk_in b [])) id (i_client inc) (lk_in b) flags0 = Ok (s1', fl1')).
-  { rewrite EQ. cbn [handle_packets]. rewrite H1. reflexivity. }
-  rewrite (handle_device_payload_disc _ _ _ _ _ _ G Hb HPs D) in H.
-  apply bind_ok in H as (st2 & H2 & H). apply bind_ok in H as (st3 & H3 & H).
-  exists st3. split; [exact H1 |]. split; [exact D |]. split; [exact HPs |].
-  split.
-  { assert (K2 : keep st2 = keep s1') by (destruct (f_force_ack fl1'); [now apply reschedule_keep in H2 | now inv_ok]).
-    assert (K3 : keep st3 = keep st2) by (destruct (f_new_data fl1'); [now apply drain_notifications_keep in H3 | now inv_ok]).
-    congruence. }
-  split; [exact H |]. now apply handle_disconnection_others in H.
+  destruct (batch_break_closes _ _ _ _ _ _ _ _ _ _ G Hb P H1 D H) as (st3 & HPs & K & _ & HD & R).
+  exists st3. repeat (split; [assumption |]). exact R.
 Qed.
 
 (* ------------------------------------------------------------------ C09 (d): resume after an in-order ack *)
